@@ -29,8 +29,12 @@ ASSUMPTIONS = [
     'md5 is a Section variable of the Coq development; for the correspondence it is instantiated by the table of '
     '(input, hashlib.md5 digest) pairs observed during the run; "exactly when" is modulo md5 collisions',
     'the rewriting of the argument string is modelled at character level (re.sub with \\b at both ends, Memo.Model.resub); '
-    'two helpers of the code are oracles of that model, evaluated by the run on the real code: the strings '
-    'FlowIR.discover_reference_strings finds in the arguments and the order in which the references are visited',
+    'one helper of the code is an oracle of that model, evaluated by the run on the real code: the strings '
+    'FlowIR.discover_reference_strings finds in the arguments; the order in which the references are visited is computed by the model '
+    '(Memo.Model.code_order: direct references first, then stable by decreasing length of the absolute string) and compared with the '
+    'order the run derives from the real dataReferences',
+    'descriptions that Experiment.validateExperiment rejects are not observed (counted as rejected): e.g. the command-line '
+    'validation rejects a consumer whose short reference is listed before the longer reference it is a tail of',
     'no custom embeddingFunction (user-provided JavaScript fuzzy hash); no loop references; references to '
     'application dependencies are not generated',
     'file contents are short ASCII texts; files are read completely by md5_of_file',
@@ -44,7 +48,13 @@ KW_EXES = ['executablefoo', 'filesort', 'foo']
 KW_WORDS = ['-x executable', 'executable', '-x ', 'xfiles', 'commandarguments', 'image']
 NAMES = ['step', 'step7', 'gen', 'gen2', 'A', 'B1', 'merge', 'merge10', 'w', 'w3', 'x42', 'prep']
 IMAGES = ['img:1', 'registry/img:2', 'img']
-ABS = {'dir': '/ABSDIR'}      # directory of the absolute-path files of the current Driver; '/ABSDIR' in canonical forms
+# directory of the absolute-path files of the current Driver; in canonical forms it is written '/ABSDIR' padded with 'X' to the
+# same length (the code orders the references by the length of their strings)
+ABS = {'dir': '/ABSDIR', 'canon': '/ABSDIR'}
+# references one of which is a \b-delimited tail of another one: producer names <pre>-<name>, <pre>.<name> and files below a
+# folder called like another producer / like the data folder
+TAIL_SHORT = ['gen', 'step', 'w3', 'A', 'x42']
+TAIL_PRE = ['pre', 'x', 'a1', 'my_gen']
 CONTENTS = ['hello', 'dd', 'OUT', '1 2 3', 'alpha beta', '', 'x', 'OUT2', 'longer content of a file 0123456789']
 
 
@@ -52,7 +62,7 @@ CONTENTS = ['hello', 'dd', 'OUT', '1 2 3', 'alpha beta', '', 'x', 'OUT2', 'longe
 def ref_string(w, r, spelling, canon=False):
     """the reference as written in the FlowIR of the consumer"""
     if r['kind'] == 'abs':
-        base = '%s/%s' % ('/ABSDIR' if canon else ABS['dir'], r['path'])
+        base = '%s/%s' % (ABS['canon'] if canon else ABS['dir'], r['path'])
     elif r['kind'] == 'input':
         base = 'input/%s' % r['path']
     elif r['kind'] in ('data', 'datadir'):
@@ -186,6 +196,70 @@ def gen_world(rng, kw=False, boundary=False):
     return w
 
 
+def tail_world(rng, same_name=False):
+    """a consumer with two references on its command line, the spelling of one being a tail of the spelling of the other
+    at a '-', '.' or '/' (producers gen / pre-gen, gen / pre.gen; gen/out.txt and outer/gen/out.txt; the folders gen and pre-gen);
+    same_name: producers of the same name in two stages (gen/out.txt, stage0.gen/out.txt)"""
+    w = {'comps': [], 'inputs': {'in0.txt': [rng.choice(CONTENTS), 'file']}, 'data': {'d0.txt': [rng.choice(CONTENTS), 'file']},
+         'datadirs': ['sub0'], 'out': {}, 'abs': {}}
+    s = rng.choice([0, 0, 1])
+    if s:
+        w['comps'].append({'name': 'first', 'stage': 0, 'exe': 'true', 'refs': [], 'args': ['filler'], 'backend': ('local',)})
+    short = rng.choice(TAIL_SHORT)
+    shape = 'same' if same_name else rng.choice(['dash', 'dot', 'nest', 'dir', 'dash', 'dot'])
+    path = rng.choice(['out.txt', 'res.dat'])
+    method = rng.choice(['ref', 'ref', 'ref', 'output'])
+    method2 = method if rng.random() < 0.9 else ('output' if method == 'ref' else 'ref')
+    sep = '.' if shape == 'dot' else rng.choice(['-', '-', '.'])
+    long = rng.choice(TAIL_PRE) + sep + short
+
+    def producer(name, stage):
+        w['comps'].append({'name': name, 'stage': stage, 'exe': rng.choice(EXES), 'refs': [], 'args': [rng.choice(WORDS)],
+                           'backend': ('local',)})
+        return len(w['comps']) - 1
+    contents = rng.sample([c for c in CONTENTS if c], 2)
+    cstage = s
+    if shape in ('dash', 'dot'):
+        a, b = producer(short, s), producer(long, s)
+        refs = [{'kind': 'prodfile', 'prod': a, 'path': path, 'method': method}, {'kind': 'prodfile', 'prod': b, 'path': path, 'method': method2}]
+    elif shape == 'dir':
+        a, b = producer(short, s), producer(long, s)
+        refs = [{'kind': 'proddir', 'prod': a, 'path': '', 'method': 'ref'}, {'kind': 'proddir', 'prod': b, 'path': '', 'method': 'ref'}]
+    elif shape == 'nest':
+        a, b = producer(short, s), producer(rng.choice(['outer', 'pre']), s)
+        refs = [{'kind': 'prodfile', 'prod': a, 'path': path, 'method': method},
+                {'kind': 'prodfile', 'prod': b, 'path': '%s/%s' % (short, path), 'method': method2}]
+    else:
+        a, b = producer(short, s + 1), producer(short, s)
+        cstage = s + 1
+        refs = [{'kind': 'prodfile', 'prod': a, 'path': path, 'method': method}, {'kind': 'prodfile', 'prod': b, 'path': path, 'method': method}]
+    for r in refs:
+        if r['kind'] != 'data':
+            r['spelling'] = rng.choice(['rel', 'rel', 'abs'])
+        if r['kind'] == 'prodfile':
+            w['out']['%d/%s' % (r['prod'], r['path'])] = [contents.pop(), 'file']
+    if same_name:
+        refs[0]['spelling'] = 'rel'
+    # (the validation of the command line tends to reject the description when the short reference is listed first)
+    if rng.random() < 0.7:
+        refs.reverse()
+    if rng.random() < 0.4:
+        refs.insert(rng.randint(0, 2), {'kind': 'input', 'path': 'in0.txt', 'method': 'ref'})
+    args = list(range(len(refs)))
+    if rng.random() < 0.3:
+        args.append(rng.randrange(len(refs)))
+    for _ in range(rng.randint(0, 2)):
+        args.append(rng.choice(WORDS))
+    rng.shuffle(args)
+    w['comps'].append({'name': rng.choice(['consumer', 'merge', 'B1']), 'stage': cstage, 'exe': rng.choice(EXES), 'refs': refs, 'args': args,
+                       'backend': ('local',)})
+    k = len(w['comps']) - 1
+    w['comps'].append({'name': 'last', 'stage': cstage + rng.choice([0, 1]), 'exe': 'wc',
+                       'refs': [{'kind': 'proddir', 'prod': k, 'path': '', 'method': 'ref', 'spelling': rng.choice(['rel', 'abs'])}],
+                       'args': ['-l', 0], 'backend': ('local',)})
+    return w, k
+
+
 def chain_world(rng, length):
     """P0 -> P1 -> ... : each consumes out.txt of the previous one (fuzzy hash propagation)"""
     w = {'comps': [], 'inputs': {'in0.txt': ['hello', 'file']}, 'data': {'d0.txt': ['dd', 'file']}, 'datadirs': ['sub0'], 'out': {},
@@ -232,11 +306,13 @@ def depends_on(w, i, k, visible_only=False):
     return False
 
 
-def variant(rng, w, kind):
+def variant(rng, w, kind, comp=None):
     """returns (world', description) or None when the aspect is not present in w"""
     v = copy.deepcopy(w)
     n = len(v['comps'])
     k = rng.randrange(n)
+    if comp is not None:
+        k = comp
     c = v['comps'][k]
     if kind == 'exe':
         c['exe'] = rng.choice([e for e in EXES if e != c['exe']])
@@ -321,6 +397,10 @@ def variant(rng, w, kind):
         used = set(cc['name'] for cc in v['comps'])
         free = [x for x in NAMES + ['renamed', 'other5'] if x not in used]
         c['name'] = rng.choice(free)
+        # ... or a name of which the name of another component is a tail (pre-gen next to gen)
+        tails = [pre + x for x in sorted(used) if x != c['name'] for pre in ('pre-', 'a.') if pre + x not in used]
+        if tails and rng.random() < 0.3:
+            c['name'] = rng.choice(tails)
         return v, {'aspect': 'rename', 'comp': None}
     if kind == 'stage':
         for cc in v['comps']:
@@ -377,6 +457,7 @@ class Driver(object):
         self.absdir = os.path.join(self.tmp, 'abs')
         os.makedirs(self.absdir)
         ABS['dir'] = self.absdir
+        ABS['canon'] = '/ABSDIR' + 'X' * max(0, len(self.absdir) - len('/ABSDIR'))
         self.rec = Recorder()
         self._orig_hashlib = G.hashlib
         G.hashlib = self.rec
@@ -384,7 +465,7 @@ class Driver(object):
 
     def close(self):
         self.G.hashlib = self._orig_hashlib
-        ABS['dir'] = '/ABSDIR'
+        ABS['dir'] = '/ABSDIR'      # 'canon' stays: terms of this run are printed after the driver is closed
         try:
             os.chdir(self.cwd)
         except Exception:
@@ -409,9 +490,13 @@ class Driver(object):
         FlowIR.discover_reference_strings(args, spec.identification.stageIndex, comp_ids, found)
         drefs = sorted(spec.dataReferences, key=lambda d: len(d.stringRepresentation), reverse=True)
         names = [set([ref_string(w, r, 'abs'), ref_string(w, r, 'rel'), ref_string(w, r, ref_spelling(w, c, r))]) for r in c['refs']]
+        absolute = [ref_string(w, r, 'abs') for r in c['refs']]
         order = []
         for d in drefs:
-            cands = [j for j, ss in enumerate(names) if d.absoluteReference in ss or d.relativeReference in ss]
+            # by the absolute reference (producers of the same name live in different stages), else by any spelling
+            cands = [j for j, a in enumerate(absolute) if d.absoluteReference == a]
+            if len(cands) != 1:
+                cands = [j for j, ss in enumerate(names) if d.absoluteReference in ss or d.relativeReference in ss]
             if len(cands) != 1:
                 raise ValueError('oracle: data reference %s of the implementation matches %d references of the world' % (
                     d.absoluteReference, len(cands)))
@@ -461,6 +546,8 @@ class Driver(object):
                 c = w['comps'][int(p)]
                 target = os.path.join(inst, 'stages', 'stage%d' % c['stage'], c['name'], path)
                 if st == 'file':
+                    if not os.path.isdir(os.path.dirname(target)):
+                        os.makedirs(os.path.dirname(target))
                     open(target, 'w').write(content)
                     touched.append(target)
                 elif st == 'dir':
@@ -491,7 +578,7 @@ class Driver(object):
 
 
 def canon_path(s):
-    return s.replace(ABS['dir'], '/ABSDIR') if isinstance(s, str) and ABS['dir'] != '/ABSDIR' else s
+    return s.replace(ABS['dir'], ABS['canon']) if isinstance(s, str) and ABS['dir'] != '/ABSDIR' else s
 
 
 def canon_info(info):
@@ -542,7 +629,7 @@ def model_comps(w):
                 loc = 'stages/stage%d/%s/%s' % (p['stage'], p['name'], r['path'])
                 prod = '(Some %s)' % cnat(pos[r['prod']])
             elif r['kind'] == 'abs':
-                loc = '/ABSDIR/' + r['path']
+                loc = ABS['canon'] + '/' + r['path']
                 prod = 'None'
             else:
                 loc = ('input/' if r['kind'] == 'input' else 'data/') + r['path']
@@ -599,6 +686,106 @@ def boundary_refs(w, c):
         if isinstance(t, (list, tuple)) and re.match(r'\w', t[2]):
             out.add(t[1])
     return out
+
+
+def code_order(w, c):
+    """the order in which the code visits the references of c (mirror of Memo.Model.code_order): direct references before
+    references to components, then stable by decreasing length of the absolute reference string"""
+    idx = [j for j, r in enumerate(c['refs']) if r['kind'] not in ('prodfile', 'proddir')]
+    idx += [j for j, r in enumerate(c['refs']) if r['kind'] in ('prodfile', 'proddir')]
+    return sorted(idx, key=lambda j: -len(ref_string(w, c['refs'][j], 'abs', True)))
+
+
+def used_refs(c):
+    return sorted(set(t if isinstance(t, int) else t[1] for t in c['args'] if not isinstance(t, str)))
+
+
+def tail_first_refs(w, c):
+    """class of F16e: pairs (j1, j2) of references on the command line of c such that the spelling of j1 occurs, between word
+    boundaries, in the different spelling of j2, and the code visits j1 before j2 (its sort key is the length of the ABSOLUTE
+    string): j1 is substituted inside j2"""
+    order = code_order(w, c)
+    out = []
+    used = used_refs(c)
+    for j1 in used:
+        for j2 in used:
+            s1, s2 = (ref_string(w, c['refs'][j], ref_spelling(w, c, c['refs'][j]), True) for j in (j1, j2))
+            if s1 != s2 and re.search(r'\b' + re.escape(s1) + r'\b', s2) and order.index(j1) < order.index(j2):
+                out.append((j1, j2))
+    return out
+
+
+def tail_pairs(w, c):
+    """pairs of references on the command line of c, the spelling of one occurring between word boundaries in the other"""
+    out = []
+    used = used_refs(c)
+    for j1 in used:
+        for j2 in used:
+            s1, s2 = (ref_string(w, c['refs'][j], ref_spelling(w, c, c['refs'][j]), True) for j in (j1, j2))
+            if s1 != s2 and re.search(r'\b' + re.escape(s1) + r'\b', s2):
+                out.append((j1, j2))
+    return out
+
+
+def fuzzy_inner_refs(w, c):
+    """class of F16e: pairs (j2, j1) of references on the command line of c such that the fuzzy replacement of j2 (a file made by a
+    producer: file:fuzzy#<hash of the producer>#<path below the producer>:<method>) contains, between word boundaries, the spelling of
+    j1, and the code visits j1 after j2: j1 is substituted inside the replacement of j2"""
+    order = code_order(w, c)
+    out = []
+    used = used_refs(c)
+    for j2 in used:
+        r2 = c['refs'][j2]
+        if r2['kind'] != 'prodfile' or state_of(w, r2)[1] is None:
+            continue
+        for j1 in used:
+            s1 = ref_string(w, c['refs'][j1], ref_spelling(w, c, c['refs'][j1]), True)
+            if j1 != j2 and re.search(r'\b' + re.escape(s1) + r'\b', '#%s:%s' % (r2['path'], r2['method'])) and \
+                    order.index(j2) < order.index(j1):
+                out.append((j2, j1))
+    return out
+
+
+def tail_first_world(w):
+    return any(tail_first_refs(w, c) for c in w['comps'])
+
+
+def fuzzy_inner_world(w):
+    return any(fuzzy_inner_refs(w, c) for c in w['comps'])
+
+
+def expected_arguments(w, c, flav, obs):
+    """the command line of c with every reference replaced by the hash of what it refers to (mirror of Memo.Model.args_of):
+    None when it is not defined here (a reference outside word boundaries: F16c, checked elsewhere; a producer without hash)"""
+    out = []
+    for t in c['args']:
+        if isinstance(t, str):
+            out.append(t)
+            continue
+        if not isinstance(t, int):
+            return None
+        r = c['refs'][t]
+        if r['kind'] == 'abs':
+            return None
+        st, content = state_of(w, r)
+        p = r.get('prod')
+        if st == 'FMissing':
+            return None
+        if content is not None:
+            if flav == 'strong' or p is None:
+                h = hashlib.md5(content.encode('utf-8')).hexdigest()
+            else:
+                if obs[p]['fuzzy'][2] is None:
+                    return None
+                h = 'fuzzy#%s#%s' % (obs[p]['fuzzy'][2], r['path'])
+            out.append('file:%s:%s' % (h, r['method']))
+        elif p is None:
+            out.append(ref_string(w, r, ref_spelling(w, c, r), True))      # a folder of the package: as written
+        else:
+            if obs[p][flav][2] is None:
+                return None
+            out.append('%s:%s:%s' % ('producer' if flav == 'strong' else 'fuzzy', obs[p][flav][2], r['method']))
+    return ' '.join(out)
 
 
 def coq_case(w, obs):
@@ -671,6 +858,15 @@ def check_world(ctx, w, obs, tag):
             info = obs[i][flav][0]
             if info is None or 'args' not in info:
                 continue
+            # the arguments recorded are the command line after EACH reference has been replaced by the hash of what IT refers to
+            want = expected_arguments(w, c, flav, obs)
+            if want is not None and info['args'] != want:
+                ctx.fail({'world': w, 'comp': i, 'flavour': flav, 'tag': tag, 'arguments': info['args'], 'expected': want},
+                         'the arguments in the %s memoization info are not the command line with each reference replaced by the hash '
+                         'of what it refers to (a piece of a reference survives / the hash of another file stands for it): the hash '
+                         'depends on names' % flav,
+                         (['reference_tail_of_reference_visited_first'] if tail_first_refs(w, c) else []) +
+                         (['reference_inside_fuzzy_replacement'] if flav == 'fuzzy' and fuzzy_inner_refs(w, c) else []))
             for t in c['args']:
                 j = t if isinstance(t, int) else (t[1] if isinstance(t, (list, tuple)) else None)
                 if j is None or c['refs'][j]['kind'] == 'datadir':
@@ -721,11 +917,21 @@ def check_variant(ctx, base, bobs, v, vobs, d):
             tainted = aspect in ('rename', 'stage') and any(
                 any(base['comps'][x]['refs'][j]['kind'] in ('prodfile', 'proddir') for j in boundary_refs(base, base['comps'][x]))
                 and (x == i or depends_on(base, i, x)) for x in range(n))
+            # a reference substituted inside another one leaves a piece of a stage index / producer name (not reachable: the
+            # validation of the command line rejects such descriptions); F16e: ... inside the fuzzy replacement of another one
+            tail = aspect in ('rename', 'stage') and any(
+                (tail_first_refs(base, base['comps'][x]) or tail_first_refs(v, v['comps'][x])) and (x == i or depends_on(base, i, x))
+                for x in range(n))
+            inner = aspect in ('rename', 'stage') and any(
+                (fuzzy_inner_refs(base, base['comps'][x]) or fuzzy_inner_refs(v, v['comps'][x])) and (x == i or depends_on(base, i, x))
+                for x in range(n))
             for flav in ('strong', 'fuzzy'):
                 if bobs[i][flav][2] != vobs[i][flav][2]:
                     ctx.fail(dict(case, comp=i, flavour=flav),
                              'the %s memoization hash depends on a hash-irrelevant aspect (%s)' % (flav, aspect),
-                             ['reference_not_at_word_boundaries'] if tainted else [])
+                             (['reference_not_at_word_boundaries'] if tainted else []) +
+                             (['reference_tail_of_reference_visited_first'] if tail else []) +
+                             (['reference_inside_fuzzy_replacement'] if inner and flav == 'fuzzy' else []))
         return
     if aspect == 'missing':
         return      # covered by check_world on the variant
@@ -818,8 +1024,47 @@ def corpus_families():
          'args': ['-l'], 'backend': loc}])
     vcopy = copy.deepcopy(fcopy)
     vcopy['out']['0/out.txt'][0] = 'OUT+changed'
-    return [('F16c-abs', fabs, []), ('F16c-glue', fglue, []),
+    fams = [('F16c-abs', fabs, []), ('F16c-glue', fglue, []),
             ('F16d', fcopy, [(vcopy, {'aspect': 'prodcontent', 'comp': 1, 'users': [1], 'folder_users': [2]})])]
+
+    # the order of the rewriting: two references of which one is a tail of the other (at '-', '.', '/')
+    def two(first, second, path2='out.txt', spell2='rel'):
+        return dict(copy.deepcopy(base), out={'0/out.txt': ['ONE', 'file'], '1/%s' % path2: ['TWO', 'file']}, comps=[
+            {'name': first, 'stage': 0, 'exe': 'echo', 'refs': [], 'args': ['x'], 'backend': loc},
+            {'name': second, 'stage': 0, 'exe': 'echo', 'refs': [], 'args': ['zzz'], 'backend': loc},
+            {'name': 'consumer', 'stage': 0, 'exe': 'cat',
+             'refs': [{'kind': 'prodfile', 'prod': 0, 'path': 'out.txt', 'method': 'ref', 'spelling': 'rel'},
+                      {'kind': 'prodfile', 'prod': 1, 'path': path2, 'method': 'ref', 'spelling': spell2}],
+             'args': [1, '-q', 0], 'backend': loc},
+            {'name': 'last', 'stage': 1, 'exe': 'wc', 'refs': [{'kind': 'proddir', 'prod': 2, 'path': '', 'method': 'ref'}],
+             'args': [0], 'backend': loc}])
+    # (the third one is the witness of F16e: the fuzzy replacement of outer/gen/out.txt:ref ends in gen/out.txt:ref)
+    for first, second, path2, spell2 in (('gen', 'pre-gen', 'out.txt', 'rel'), ('gen', 'pre.gen', 'out.txt', 'rel'),
+                                         ('gen', 'outer', 'gen/out.txt', 'rel'), ('gen', 'pre-gen', 'out.txt', 'abs')):
+        t = two(first, second, path2, spell2)
+        # the long reference is listed first (listed second, the validation of the command line rejects the description)
+        t['comps'][2]['refs'].reverse()
+        t['comps'][2]['args'] = [0, '-q', 1]
+        # the same work with producers of unrelated names: same hashes
+        v = copy.deepcopy(t)
+        v['comps'][0]['name'], v['comps'][1]['name'] = 'alpha', 'beta'
+        fams.append(('tail', t, [(v, {'aspect': 'rename', 'comp': None})]))
+    # producers called gen in stage 0 and in stage 1, the consumer of stage 1 lists the relative reference first: the code would
+    # substitute it inside stage0.gen/out.txt:ref (Refuted.C16_sort_key_refuted), but the validation of the command line rejects
+    # the description (counted as rejected); listed second there is no defect
+    same = dict(copy.deepcopy(base), out={'0/out.txt': ['ONE', 'file'], '1/out.txt': ['TWO', 'file']}, comps=[
+        {'name': 'gen', 'stage': 0, 'exe': 'echo', 'refs': [], 'args': ['x'], 'backend': loc},
+        {'name': 'gen', 'stage': 1, 'exe': 'echo', 'refs': [], 'args': ['zzz'], 'backend': loc},
+        {'name': 'consumer', 'stage': 1, 'exe': 'cat',
+         'refs': [{'kind': 'prodfile', 'prod': 1, 'path': 'out.txt', 'method': 'ref', 'spelling': 'rel'},
+                  {'kind': 'prodfile', 'prod': 0, 'path': 'out.txt', 'method': 'ref'}],
+         'args': [0, 1], 'backend': loc}])
+    swapped = copy.deepcopy(same)
+    swapped['comps'][2]['refs'].reverse()
+    swapped['comps'][2]['args'] = [1, 0]
+    fams.append(('same-name', same, []))
+    fams.append(('same-name-listed-second', swapped, []))
+    return fams
 
 
 def run_resub(ctx, n):
@@ -921,6 +1166,12 @@ def explore(ctx, families):
                                      'C16 arguments: the string the code starts from is not the one written in the description')
                 if boundary_world(w):
                     ctx.count('boundary_worlds')
+                if any(tail_pairs(w, c) for c in w['comps']):
+                    ctx.count('tail_reference_worlds')
+                if tail_first_world(w):
+                    ctx.count('tail_reference_visited_first_worlds')
+                if fuzzy_inner_world(w):
+                    ctx.count('reference_inside_fuzzy_replacement_worlds')
                 if malformed(obs):
                     ctx.disagree({'world': w}, obs, None, 'C16 info: implementation output not expressible in the model '
                                                           '(info dictionary shape / hash is not md5 of the traversal buffer)')
@@ -938,8 +1189,10 @@ def explore(ctx, families):
     finally:
         drv.close()
     # blank-delimited worlds: the character-level model AND the token model; boundary worlds: the character-level model
-    plain = [t for t in terms if not boundary_world(t[1])]
-    bound = [t for t in terms if boundary_world(t[1])]
+    # (F16c / F16e worlds: the token model is what the property asks for, not what the code does)
+    special = lambda w: boundary_world(w) or tail_first_world(w) or fuzzy_inner_world(w)
+    plain = [t for t in terms if not special(t[1])]
+    bound = [t for t in terms if special(t[1])]
     bad = [plain[i] for i in ctx.model_mismatches(HEADER, [t[0] for t in plain], 'check_case_both', chunk=60)]
     bad += [bound[i] for i in ctx.model_mismatches(HEADER, [t[0] for t in bound], 'check_case_chars', chunk=60, name='boundary')]
     for n, t in enumerate(bad):
@@ -979,7 +1232,11 @@ def run(ctx):
                 'data files, data folders, files and folders of producers, three backends, paths that are files / missing / folders) '
                 'and variants differing in exactly one aspect (executable, literal argument, image, reference method, contents of an '
                 'input, contents of a producer-made file, a missing input | component name, stage indices, modification times, '
-                'instance location, backend kind with the same image); producer chains of length 1-3; plus random nested '
+                'instance location, backend kind with the same image; a rename sometimes makes the name of another component a tail of '
+                'the new one: pre-gen next to gen); producer chains of length 1-3; consumers of two references of which one is a '
+                'word-boundary-delimited tail of the other (producers gen / pre-gen / pre.gen, file outer/gen/out.txt next to '
+                'gen/out.txt, folders, same name in two stages; relative and absolute spellings, either listing order) with the same '
+                'work under other producer names as a variant; plus random nested '
                 'dictionaries for the traversal alone. non-trivial world = some component has a hash and consumes a file or a '
                 'producer; distinct by (world description, aspect)')
     families = []
@@ -994,6 +1251,14 @@ def run(ctx):
         families.append(make_family(rng, 'kw' if kw else ('boundary' if bd else 'rand'), gen_world(rng, kw, bd), nvar))
     for i in range(16 if ctx.tier == 'quick' else 60):
         families.append(make_family(rng, 'chain', chain_world(rng, rng.randint(1, 3)), nvar))
+    # the order of the rewriting: consumers of two references, one a tail of the other (1 in 8: same name in two stages)
+    for i in range(16 if ctx.tier == 'quick' else 64):
+        w, k = tail_world(rng, same_name=(i % 8 == 7))
+        fam = make_family(rng, 'tail', w, 3 if ctx.tier == 'quick' else 5)
+        # ... and the same work with one of its producers called differently
+        prods = sorted(set(r['prod'] for r in w['comps'][k]['refs'] if r.get('prod') is not None))
+        fam[2].append(variant(rng, w, 'rename', comp=rng.choice(prods)))
+        families.append(fam)
     explore(ctx, families)
 
 
